@@ -20,13 +20,15 @@ pub struct Opts {
     pub server: bool,
     pub names: Option<(String, String)>,
     pub nested_dir: bool,
+    /// the output directory is a (not yet existing) directory of this name, given as raw bytes: a path is not text
+    pub dir_name: Option<Vec<u8>>,
     /// a previous run into the same directory (history): its algorithm flag
     pub previous_run: Option<&'static str>,
 }
 
 impl Opts {
     fn base() -> Self {
-        Opts { alg: "", sans: vec![], cn: None, country: None, org: None, client: false, server: false, names: None, nested_dir: false, previous_run: None }
+        Opts { alg: "", sans: vec![], cn: None, country: None, org: None, client: false, server: false, names: None, nested_dir: false, dir_name: None, previous_run: None }
     }
 }
 
@@ -34,8 +36,19 @@ fn is_printable(s: &str) -> bool {
     s.bytes().all(refmodel::der::is_printable_char)
 }
 
-fn args_of(o: &Opts, dir: &std::path::Path, alg: &str) -> Vec<String> {
-    let mut a = vec!["--output".to_string(), dir.to_string_lossy().to_string()];
+fn args_of(o: &Opts, dir: &std::path::Path, alg: &str) -> Vec<std::ffi::OsString> {
+    let mut a = args_of_text(o, alg);
+    a.insert(0, dir.as_os_str().to_os_string());
+    a.insert(0, "--output".into());
+    a
+}
+
+fn args_of_text(o: &Opts, alg: &str) -> Vec<std::ffi::OsString> {
+    args_of_strings(o, alg).into_iter().map(Into::into).collect()
+}
+
+fn args_of_strings(o: &Opts, alg: &str) -> Vec<String> {
+    let mut a: Vec<String> = Vec::new();
     if !alg.is_empty() {
         a.push(alg.to_string());
     }
@@ -82,6 +95,13 @@ fn judge(o: &Opts, bin: &std::path::Path, backend: &str, scratch: &std::path::Pa
     let _ = std::fs::remove_dir_all(&top);
     std::fs::create_dir_all(&top).unwrap();
     let dir = if o.nested_dir { top.join("does/not/exist yet") } else { top.clone() };
+    let dir = match &o.dir_name {
+        Some(raw) => {
+            use std::os::unix::ffi::OsStrExt;
+            dir.join(std::ffi::OsStr::from_bytes(raw))
+        }
+        None => dir,
+    };
     let rsa_unsupported = backend == "ring";
     let mut f = Vec::new();
     // history: a previous successful run into the same directory
@@ -250,7 +270,7 @@ pub fn opt_space(backend: &str) -> Space<Opts> {
     }
     dims.push(d);
     // (first five positions are used for the pairs below; appended: IP literals in their longest spellings)
-    let atoms = ["host.example.com", "192.0.2.7", "2001:db8::1", "caf\u{e9}.example", "::1", "::ffff:10.0.0.1", "localhost", "*.wild.example", "2001:0db8:0000:0000:0000:0000:0000:0001", "0000:0000:0000:0000:0000:ffff:192.168.100.100", "0000:0000:0000:0000:0000:0000:255.255.255.255", "255.255.255.255", "fe80:0000:0000:0000:0202:b3ff:fe1e:8329"];
+    let atoms = ["host.example.com", "192.0.2.7", "2001:db8::1", "caf\u{e9}.example", "::1", "::ffff:10.0.0.1", "localhost", "*.wild.example", "2001:0db8:0000:0000:0000:0000:0000:0001", "0000:0000:0000:0000:0000:ffff:192.168.100.100", "0000:0000:0000:0000:0000:0000:255.255.255.255", "255.255.255.255", "fe80:0000:0000:0000:0202:b3ff:fe1e:8329", "\u{17f}an.example", "\u{212a}.example", "HOST.Example.COM"];
     let mut d = Dim::new("sans");
     for a in atoms {
         d = d.v(format!("[{}]", a), move |o: &mut Opts| o.sans = vec![a.to_string()]);
@@ -263,7 +283,14 @@ pub fn opt_space(backend: &str) -> Space<Opts> {
     }
     dims.push(d);
     dims.push(Dim::new("common_name").v("ascii", |o: &mut Opts| o.cn = Some("My Server".into())).v("non-ascii", |o: &mut Opts| o.cn = Some("S\u{e9}rveur \u{1f980}".into())).v("empty", |o: &mut Opts| o.cn = Some(String::new())));
-    dims.push(Dim::new("country").v("DE", |o: &mut Opts| o.country = Some("DE".into())).v("non-printable", |o: &mut Opts| o.country = Some("D\u{e9}".into())).v("non-printable ascii", |o: &mut Opts| o.country = Some("D@".into())));
+    let mut d = Dim::new("country").v("DE", |o: &mut Opts| o.country = Some("DE".into())).v("non-printable", |o: &mut Opts| o.country = Some("D\u{e9}".into())).v("non-printable ascii", |o: &mut Opts| o.country = Some("D@".into()));
+    // lower case is printable and is carried as given; characters that case mapping or compatibility normalisation
+    // would turn into ASCII letters are not printable
+    d = d.v("lower case", |o: &mut Opts| o.country = Some("de".into()));
+    for (l, c) in [("sharp s", "\u{df}"), ("long s", "\u{17f}e"), ("dotless i", "\u{131}t"), ("fi ligature", "\u{fb01}"), ("kelvin sign", "\u{212a}r"), ("fullwidth letters", "\u{ff24}\u{ff25}")] {
+        d = d.v(format!("non-printable: {}", l), move |o: &mut Opts| o.country = Some(c.to_string()));
+    }
+    dims.push(d);
     dims.push(Dim::new("organization").v("non-ascii", |o: &mut Opts| o.org = Some("\u{d6}rg GmbH".into())).v("ascii", |o: &mut Opts| o.org = Some("Plain Org".into())));
     dims.push(Dim::new("client_auth").v("on", |o: &mut Opts| o.client = true));
     dims.push(Dim::new("server_auth").v("on", |o: &mut Opts| o.server = true));
@@ -277,7 +304,17 @@ pub fn opt_space(backend: &str) -> Space<Opts> {
             .v("upper-case twin with a dot", |o: &mut Opts| o.names = Some(("x.Key".into(), "X.key".into())))
             .v("one a prefix of the other", |o: &mut Opts| o.names = Some(("cert".into(), "cert2".into()))),
     );
-    dims.push(Dim::new("output_dir").v("nested non-existing", |o: &mut Opts| o.nested_dir = true));
+    dims.push(
+        Dim::new("output_dir")
+            .v("nested non-existing", |o: &mut Opts| o.nested_dir = true)
+            .v("name that is not UTF-8 (Latin-1 bytes)", |o: &mut Opts| o.dir_name = Some(b"schl\xfcssel".to_vec()))
+            .v("name with non-ASCII characters", |o: &mut Opts| o.dir_name = Some("schl\u{fc}ssel \u{1f980}".as_bytes().to_vec()))
+            .v("name with blanks and a trailing dot", |o: &mut Opts| o.dir_name = Some(b" out dir.".to_vec()))
+            .v("nested, not UTF-8", |o: &mut Opts| {
+                o.nested_dir = true;
+                o.dir_name = Some(vec![0xff, b'k', 0xc3]);
+            }),
+    );
     dims.push(Dim::new("history").v("previous run with --ecdsa-p384", |o: &mut Opts| o.previous_run = Some("--ecdsa-p384")).v("previous run with --ed25519", |o: &mut Opts| o.previous_run = Some("--ed25519")));
     Space { base: Opts::base(), dims }
 }
@@ -305,5 +342,10 @@ pub fn run(prop: &str, tier: &str, replay: Option<&str>) -> i32 {
         rep.add(sec);
     }
     let _ = std::fs::remove_dir_all(&scratch);
+    // the library half of the crate: histories over its builders
+    #[cfg(feature = "crypto")]
+    for sec in super::builders::sections(thorough) {
+        rep.add(sec);
+    }
     run::finish(rep)
 }
